@@ -27,6 +27,9 @@ def gen_geometry(rng, ground):
     pts = [start]
     for k in range(nw):
         p1 = pts[-1] if rng.random() < 0.7 else [_d(rng, -3, 3), _d(rng, -3, 3), _d(rng, 1, 5)]
+        if p1 is pts[-1] and k > 0 and rng.random() < 0.35:
+            # joined by the fuzzy end matching only: not the same numbers
+            p1 = [float('%.9g' % (v + rng.choice([1e-7, -2e-7, 3e-7]))) if (v != 0 or not ground) else v for v in p1]
         ln = _d(rng, 1.5, 4)
         d = np.array([rng.gauss(0, 1), rng.gauss(0, 1), abs(rng.gauss(0, 1)) + 0.4]); d /= np.linalg.norm(d)
         p2 = [float('%.5g' % (p1[i] + ln * d[i])) for i in range(3)]
